@@ -3,13 +3,28 @@ use crate::event::NetworkEvent;
 use crate::record_store_api::UnifiedRecordStore;
 use crate::replication_fetcher::ReplicationFetcher;
 use crate::shim::tokio::sync::mpsc;
+use crate::shim::{Instant, KKey, KPeer, NetworkAddress};
+use crate::cmd::NetworkSwarmCmd;
+use crate::shim::libp2p::PeerId;
+use std::collections::BTreeMap;
 
 pub struct Kad {
     pub store: UnifiedRecordStore,
+    /// model routing table (does not contain self)
+    pub routing_table: Vec<PeerId>,
 }
 impl Kad {
     pub fn store_mut(&mut self) -> &mut UnifiedRecordStore {
         &mut self.store
+    }
+    /// libp2p's contract: all peers of the routing table, ascending by XOR distance to the key
+    pub fn get_closest_local_peers(&mut self, key: &KKey) -> impl Iterator<Item = KPeer> {
+        let target = NetworkAddress { bytes: key.bytes.clone(), is_peer: false };
+        let mut v = self.routing_table.clone();
+        v.sort_by(|a, b| {
+            target.distance(&NetworkAddress::from_peer(*a)).cmp(&target.distance(&NetworkAddress::from_peer(*b)))
+        });
+        v.into_iter().map(KPeer)
     }
 }
 pub struct Behaviour {
@@ -28,6 +43,11 @@ pub struct SwarmDriver {
     pub replication_fetcher: ReplicationFetcher,
     pub hard_disk_write_error: usize,
     pub event_sender: mpsc::Sender<NetworkEvent>,
+    pub self_peer_id: PeerId,
+    pub last_replication: Option<Instant>,
+    pub replication_targets: BTreeMap<PeerId, Instant>,
+    pub network_cmd_sender: mpsc::Sender<NetworkSwarmCmd>,
+    pub network_cmd_rx: mpsc::Receiver<NetworkSwarmCmd>,
 }
 
 impl SwarmDriver {
@@ -36,14 +56,20 @@ impl SwarmDriver {
         fetcher: ReplicationFetcher,
         event_sender: mpsc::Sender<NetworkEvent>,
     ) -> Self {
+        let (ntx, nrx) = mpsc::channel::<NetworkSwarmCmd>(100);
         SwarmDriver {
-            swarm: Swarm { behaviour: Behaviour { kademlia: Kad { store } } },
+            swarm: Swarm { behaviour: Behaviour { kademlia: Kad { store, routing_table: vec![] } } },
             replication_fetcher: fetcher,
             hard_disk_write_error: 0,
             event_sender,
+            self_peer_id: crate::util::self_peer(),
+            last_replication: None,
+            replication_targets: BTreeMap::new(),
+            network_cmd_sender: ntx,
+            network_cmd_rx: nrx,
         }
     }
-    pub(crate) fn log_handling(&mut self, _s: String, _d: std::time::Duration) {}
+    pub(crate) fn log_handling<D>(&mut self, _s: String, _d: D) {}
     pub fn store(&mut self) -> &mut UnifiedRecordStore {
         &mut self.swarm.behaviour.kademlia.store
     }
